@@ -1,4 +1,4 @@
-import ScrutModel.Lemmas.GenerateCreate
+import ScrutModel.Lemmas.GenerateMarkdown
 import ScrutModel.Props.C11
 /-!
 # C09 — Generated tests pass against the very output they were generated from
@@ -15,10 +15,15 @@ output → lines (`split_at_newline`, Newline model) → one generated text per 
 → parsed by the grammar (Grammar model, C08) with the rule constructors of the string kinds
 (RulesStr / EscapedFilter models, C04/C11) → matched against the output's lines by the matcher
 (Diff model, C01–C03) → exit-code gate and verdict (`validate`, Exec model).
-Not proved in Lean (left to the correspondence of `create … = real document` on every case and to
-the end-to-end oracle real generator → real parser → real `validate`): that the Markdown / Cram
-document parser hands exactly these lines, as one test with the same command, to the line parser
-(`C09_markdown_fence` is the one fact about the wrapper that is proved).
+The last hop through the document parser is proved for Markdown (`C09_create_markdown_end_to_end`):
+the document `create` prints is `str::lines()`-split into the rendering of one well-formed block
+of C06's grammar (fence of `max_backtick_size + 1` backticks recognised with language and inline
+configuration, no generated line closes the block or ends in a carriage return, the first line after
+the command is no continuation, `[code]` is the only exit code line), so `MarkdownParser::parse`
+(Markdown model, C06) returns exactly one test with the same command lines, the generated texts as
+expectations and the exit code. Not proved in Lean for Cram (left to the correspondence of `create …
+= real document` on every case and to the end-to-end oracle real generator → real parser → real
+`validate`): that the Cram document parser hands exactly these lines to the line parser.
 
 Parameters: `isOther` = `char::is_other()` (unicode-mode statements assume `AsciiContract`, as in
 C11); `P : Grammar.Params` with `StdParams P`: `\s` is Unicode white space and the `escaped`
@@ -138,6 +143,43 @@ theorem C09_create_verdict (c : Int) (tc : Exec.TC) (o : Exec.Out) (hs : o.statu
     Exec.validate tc o = .ok :=
   validate_ok c tc o hs hexp hacc
 
+/-- `env.expOk` of the Markdown parser model is `ExpectationMaker::parse(..).is_ok()` -/
+def envOf (P : Params) (isLetter : Char → Bool) : Markdown.Env :=
+  { isLetter := isLetter
+    expOk := fun t => match parse P t with | .ok _ => true | .error _ => false
+    docCfgOk := fun _ => true
+    testCfgOk := fun _ => true }
+
+/-- **C09 (create, Markdown, through the document parser)**: for every command (lines `c0 :: more`
+without line feed or final carriage return, the last one not empty), every output `out`, every
+process exit code, both escapers and both inline configurations `create` can write,
+`scrut create` does not panic and the document it prints is read back by `MarkdownParser::parse` as
+EXACTLY ONE test: the same command lines, the exit code (`none` for 0), the inline configuration, and
+as expectations the texts `ts[i]` written for the lines of `out` -- of which `C09_line_roundtrip`
+says that each parses to an unquantified expectation matching its line and `C09_create_passes` that
+the matcher reports no difference. Any parser environment whose expectation check accepts what the
+grammar parses and whose YAML check accepts `output_stream: stderr` (`envOf` is one). -/
+theorem C09_create_markdown_end_to_end (P : Params) (hP : StdParams P) (m : Mode) (isOther : Char → Bool)
+    (hC : m = .unicode → AsciiContract isOther) (env : Markdown.Env) (hlang : env.languages = [language])
+    (hcfg : ∀ c, cfgInner .stderr = some c → env.testCfgOk c = true)
+    (hexp : ∀ t e, parse P t = .ok e → env.expOk t = true)
+    (cfg : ConfigDiff) (c0 : List Char) (more : List (List Char)) (hlines : CmdLines (c0 :: more))
+    (hcr : ∀ l ∈ c0 :: more, l.getLast? ≠ some '\r')
+    (out : List UInt8) (code : Int) (h0 : 0 ≤ code) (h1 : code ≤ 255) :
+    ∃ doc ts, create .markdown m isOther cfg (joinNl (c0 :: more)) out code = some doc ∧
+      ts.length = (Newline.splitAtNewline out).length ∧
+      (∀ i (h : i < (Newline.splitAtNewline out).length),
+        expectationLine m isOther (Newline.splitAtNewline out)[i] = ts[i]?) ∧
+      Markdown.parseMarkdown env doc
+        = .ok { docConfigs := []
+                tests := [{ title := []
+                            command := c0 :: more
+                            exitCode := if code ≠ 0 then some code.toNat else none
+                            expectations := ts
+                            lineNumber := 2
+                            config := some (cfgInner cfg) }] } :=
+  create_markdown_end_to_end hP m isOther hC env hlang hcfg hexp cfg c0 more hlines hcr out code h0 h1
+
 /-- the Markdown wrapper: the fence has at least three backticks and more than any line of the
 block has at its start, so no generated line closes the block -/
 theorem C09_markdown_fence (g : List Char) :
@@ -163,6 +205,17 @@ theorem C09_update_fails_on_witness : hasDiff (diff 2 3 updEs updMt) = true := b
 /-- the parameter hypothesis holds for the real `\s` and `EscapedRule::make`, any other constructors -/
 example (mkGlob mkRegex : List Char → Option (List UInt8)) : StdParams (stdParams mkGlob mkRegex) :=
   stdParams_std mkGlob mkRegex
+
+/-- the hypotheses on the parser environment hold for `envOf` -/
+example (P : Params) (isLetter : Char → Bool) :
+    (envOf P isLetter).languages = [language] ∧
+    (∀ c, cfgInner .stderr = some c → (envOf P isLetter).testCfgOk c = true) ∧
+    (∀ t e, parse P t = .ok e → (envOf P isLetter).expOk t = true) :=
+  ⟨rfl, fun _ _ => rfl, fun t e h => by simp [envOf, h]⟩
+
+/-- a two-line command satisfies `CmdLines` -/
+example : CmdLines [['e', 'c', 'h', 'o', ' ', '\\'], [' ', 'x']] :=
+  ⟨by decide, [['e', 'c', 'h', 'o', ' ', '\\']], [' ', 'x'], rfl, by decide⟩
 
 /-- `IsLine` holds of every piece of every output -/
 example (out : List UInt8) : ∀ l ∈ Newline.splitAtNewline out, Newline.IsLine l :=
